@@ -352,6 +352,33 @@ def value_shapes(tier):
     add("C07 value SET with defaults overridden", ['Ss ::= SET { x INTEGER DEFAULT 0, y INTEGER DEFAULT 0 }'], 'v', 'Ss', f"{{ x {PH(0)}, y {PH(1)} }}", V('seq', fields=[('x', I(0)), ('y', I(1))]), 2)
     add("C07 value SEQUENCE OF", ['Ll ::= SEQUENCE OF INTEGER'], 'v', 'Ll', f"{{ {PH(0)}, {PH(1)}, {PH(2)} }}", V('list', items=[I(0), I(1), I(2)]), 3)
     add("C07 value nested", ['Ss ::= SEQUENCE { c CHOICE { one INTEGER, two BOOLEAN }, l SEQUENCE OF INTEGER }'], 'v', 'Ss', f"{{ c one:{PH(0)}, l {{ {PH(1)} }} }}", V('seq', fields=[('c', V('choice', alt='one', inner=I(0))), ('l', V('list', items=[I(1)]))]), 2)
+    # SEQUENCE values below a type reference (X.680 25.18: the value of a component of a referenced SEQUENCE type); a
+    # single `{ n 3 }` is lexically also an OBJECT IDENTIFIER value and can only be told apart by the governing type
+    in2, in1 = 'Inner ::= SEQUENCE { n INTEGER, b BOOLEAN }', 'Inner ::= SEQUENCE { n INTEGER }'
+    v2 = lambda k: V('seq', fields=[('n', I(k)), ('b', V('bool', b=True))])
+    v1 = lambda k: V('seq', fields=[('n', I(k))])
+    add("C07 value SEQUENCE in SEQUENCE via type ref", [in2, 'Outer ::= SEQUENCE { i Inner, k INTEGER }'], 'v', 'Outer', f"{{ i {{ n {PH(0)}, b TRUE }}, k {PH(1)} }}", V('seq', fields=[('i', v2(0)), ('k', I(1))]), 2)
+    add("C07 value one-component SEQUENCE in SEQUENCE via type ref", [in1, 'Outer ::= SEQUENCE { i Inner, k INTEGER }'], 'v', 'Outer', f"{{ i {{ n {PH(0)} }}, k {PH(1)} }}", V('seq', fields=[('i', v1(0)), ('k', I(1))]), 2)
+    add("C07 value one-component SEQUENCE via type ref", [in1], 'v', 'Inner', f"{{ n {PH(0)} }}", v1(0), 1)
+    add("C07 value SEQUENCE in SEQUENCE declared later", ['Outer ::= SEQUENCE { i Inner, k INTEGER }', in2], 'v', 'Outer', f"{{ i {{ n {PH(0)}, b TRUE }}, k {PH(1)} }}", V('seq', fields=[('i', v2(0)), ('k', I(1))]), 2)
+    add("C07 value SEQUENCE OF SEQUENCE via type ref", [in2, 'Ll ::= SEQUENCE OF Inner'], 'v', 'Ll', f"{{ {{ n {PH(0)}, b TRUE }}, {{ n {PH(1)}, b TRUE }} }}", V('list', items=[v2(0), v2(1)]), 2)
+    add("C07 value SEQUENCE OF one-component SEQUENCE via type ref", [in1, 'Ll ::= SEQUENCE OF Inner'], 'v', 'Ll', f"{{ {{ n {PH(0)} }}, {{ n {PH(1)} }} }}", V('list', items=[v1(0), v1(1)]), 2)
+    add("C07 value CHOICE of SEQUENCE via type ref", [in2, 'Cc ::= CHOICE { p Inner, q NULL }'], 'v', 'Cc', f"p:{{ n {PH(0)}, b TRUE }}", V('choice', alt='p', inner=v2(0)), 1)
+    add("C07 value CHOICE of one-component SEQUENCE via type ref", [in1, 'Cc ::= CHOICE { p Inner, q NULL }'], 'v', 'Cc', f"p:{{ n {PH(0)} }}", V('choice', alt='p', inner=v1(0)), 1)
+    add("C07 default SEQUENCE via type ref", [in2, f"Outer ::= SEQUENCE {{ i Inner DEFAULT {{ n {PH(0)}, b TRUE }} }}"], None, None, None, v2(0), 1, dflt='outer_i_default')
+    add("C07 default one-component SEQUENCE via type ref", [in1, f"Outer ::= SEQUENCE {{ i Inner DEFAULT {{ n {PH(0)} }} }}"], None, None, None, v1(0), 1, dflt='outer_i_default')
+    add("C07 default SEQUENCE via type ref declared later", [f"Outer ::= SEQUENCE {{ i Inner DEFAULT {{ n {PH(0)}, b TRUE }} }}", in2], None, None, None, v2(0), 1, dflt='outer_i_default')
+    add("C07 default SEQUENCE OF via type ref", ['Ll ::= SEQUENCE OF INTEGER', f"Outer ::= SEQUENCE {{ i Ll DEFAULT {{ {PH(0)}, {PH(1)} }} }}"], None, None, None, V('list', items=[I(0), I(1)]), 2, dflt='outer_i_default')
+    add("C07 default CHOICE via type ref", ['Cc ::= CHOICE { p INTEGER, q NULL }', f"Outer ::= SEQUENCE {{ i Cc DEFAULT p:{PH(0)} }}"], None, None, None, V('choice', alt='p', inner=I(0)), 1, dflt='outer_i_default')
+    # values that are lexically OBJECT IDENTIFIER values: a list with one element, components given by identifiers
+    add("C07 value one-element SEQUENCE OF", ['Ll ::= SEQUENCE OF INTEGER'], 'v', 'Ll', f"{{ {PH(0)} }}", V('list', items=[I(0)]), 1)
+    add("C07 default one-element SEQUENCE OF via type ref", ['Ll ::= SEQUENCE OF INTEGER', f"Outer ::= SEQUENCE {{ i Ll DEFAULT {{ {PH(0)} }} }}"], None, None, None, V('list', items=[I(0)]), 1, dflt='outer_i_default')
+    add("C07 value SEQUENCE of enumerals", ['Ee ::= ENUMERATED { a, b }', 'Ss ::= SEQUENCE { e Ee, f Ee DEFAULT b }'], 'v', 'Ss', "{ e a }", V('seq', fields=[('e', V('enum', name='a')), ('f', V('enum', name='b'))]), 0)
+    add("C07 value SEQUENCE of named number", ['Ss ::= SEQUENCE { x INTEGER { one(%d) } }' % PH(0)], 'v', 'Ss', "{ x one }", V('seq', fields=[('x', I(0))]), 1)
+    add("C07 value SEQUENCE of value reference", [f"w INTEGER ::= {PH(0)}", 'Ss ::= SEQUENCE { x INTEGER }'], 'v', 'Ss', "{ x w }", V('seq', fields=[('x', I(0))]), 1)
+    add("C07 value SEQUENCE OF value reference", [f"w INTEGER ::= {PH(0)}", 'Ll ::= SEQUENCE OF INTEGER'], 'v', 'Ll', "{ w }", V('list', items=[I(0)]), 1)
+    add("C07 value SEQUENCE via alias of the struct", [in2, 'Uu ::= Inner'], 'v', 'Uu', f"{{ n {PH(0)}, b TRUE }}", v2(0), 1)
+    add("C07 default SEQUENCE via alias of the struct", [in2, 'Uu ::= Inner', f"Outer ::= SEQUENCE {{ i Uu DEFAULT {{ n {PH(0)}, b TRUE }} }}"], None, None, None, v2(0), 1, dflt='outer_i_default')
     # DEFAULTs: the value of the generated default function
     add("C07 default INTEGER", ['Ss ::= SEQUENCE { x INTEGER DEFAULT %d }' % PH(0)], None, None, None, I(0), 1, dflt='ss_x_default')
     add("C07 default negative INTEGER", ['Ss ::= SEQUENCE { x INTEGER DEFAULT -%d }' % PH(0)], None, None, None, V('neg', inner=I(0)), 1, dflt='ss_x_default')
@@ -384,9 +411,12 @@ class Evaluator:
     def __init__(self, items):
         self.items = items
         self.consts = {}
+        self.structs = {}
         for it in tokproj.find_items(items):
             if it.kind in ('const', 'static'):
                 self.consts[it.name] = it
+            if it.kind == 'struct':
+                self.structs[it.name] = it
 
     def strip_lazy(self, toks):
         # LazyLock :: new (|| expr)   /   lazy_static ...
@@ -483,7 +513,10 @@ class Evaluator:
             if last in ('const_new', 'new_unchecked'):
                 return ('oid', args[0][1] if args and args[0][0] == 'list' else args)
             if len(path) == 1:
-                # newtype wrapper T(x)
+                # newtype wrapper T(x): only a struct generated as a tuple struct has this constructor
+                st = self.structs.get(path[0])
+                if st is not None and not st.tuple:
+                    raise EvalError(f"`{path[0]} (..)` is written as a tuple constructor, but {path[0]} is generated as a struct with named fields")
                 return ('wrap', path[0], args[0]) if len(args) == 1 else ('struct', path[0], args)
             if len(path) == 2:
                 return ('variant', path[0], path[1], args[0] if len(args) == 1 else args)
